@@ -373,7 +373,8 @@ def check_model_constructors(chk, ix):
         f = ci.lookup(meth) if ci else None
         if f is None:
             raise AnalysisError("anchor missing: behave.model:%s.%s" % (cname, meth))
-        it = Interp(ix, stubs={"@with": "transparent"}, name="%s.%s" % (cname, meth))
+        it = Interp(ix, stubs={"@with": "transparent", "os.getcwd": lambda i, s_, a, k, n: [(s_, "val", "/cwd")]}, name="%s.%s" % (cname, meth))
+        it.allow_guess = True       # platform switches (PLATFORM_WIN) are explored both ways
         st = State()
         st.frames = []
 
